@@ -288,6 +288,31 @@ class Driver:
             except BaseException as e:  # noqa
                 self._post(self._exc_obs(e))
             self.gen_done = True
+        elif kind == "xclose":
+            # the generator is closed by a thread other than the one that called Parallel: _get_outputs detaches the
+            # abort / terminate work to a "GeneratorExitThread"; wait for it so that the snapshot is stable
+            import warnings
+            box = []
+
+            def go():
+                try:
+                    with warnings.catch_warnings():
+                        warnings.simplefilter("ignore")
+                        self.gen.close()
+                    box.append(["stop"])
+                except BaseException as e:  # noqa
+                    box.append(self._exc_obs(e))
+            t = threading.Thread(target=go, daemon=True)
+            t.start()
+            t.join(WAIT_STEP)
+            for th in threading.enumerate():
+                if th.name == "GeneratorExitThread":
+                    th.join(WAIT_STEP)
+            if not box:
+                self.anomalies.append("close() from another thread did not return")
+                box.append(["hang"])
+            self._post(box[0])
+            self.gen_done = True
         elif kind == "drop":
             import warnings
             with warnings.catch_warnings():
@@ -406,6 +431,7 @@ class Driver:
             self.par.pre_dispatch = pre
             self.par.timeout = timeout
         self.call_no += 1
+        self.cur_timeout = timeout
         it = InstrumentedInput(self.call_no, N, ifail, tfail)
         self.inputs.append(it)
         self.iter_raises_seen = 0
@@ -507,6 +533,16 @@ class Driver:
         self._send(("pull",))
         self.pending_pull = True
         time.sleep(0.001)
+        if getattr(self, "cur_timeout", None) == 0:
+            # timeout=0: a request that finds its batch pending raises TimeoutError on the second poll (about 10 ms);
+            # such a request is recorded as the pair request + timeout
+            end = time.time() + (WAIT_LONG if self.replay and ev[0] == "pulltimeout" else 1.0)
+            while time.time() < end and not self._consumer_idle():
+                time.sleep(0.002)
+            if self._consumer_idle() and any(o[:2] == ["raised", "timeout"] for o in self.results):
+                ev = ["pulltimeout"]
+            elif ev[0] == "pulltimeout":
+                ev = ["pull"]
         self._record(ev)
 
     def ev_close(self, ev):
@@ -666,7 +702,8 @@ class Driver:
                     self.ev_call2(["call2"])
                 self.ev_pull(["pull"])
             elif k == "close":
-                self.ev_close(["close" if self.rng.random() < 0.7 else "drop"])
+                r = self.rng.random()
+                self.ev_close(["close" if r < 0.55 else ("xclose" if r < 0.8 else "drop")])
             elif k == "call":
                 self.ev_call(calls.pop(0))
         self.finish()
@@ -685,9 +722,9 @@ class Driver:
                     self.ev_cb(ev)
                 elif k == "cbfin":
                     self.ev_cbfin(ev)
-                elif k == "pull":
+                elif k in ("pull", "pulltimeout"):
                     self.ev_pull(ev)
-                elif k in ("close", "drop"):
+                elif k in ("close", "drop", "xclose"):
                     self.ev_close(ev)
                     continue
                 elif k == "timeout":
